@@ -63,6 +63,8 @@ func bufScenarioX(capacity, bufMax int, producers [][]string, consumers [][]stri
 	fam := "buffered"
 	var ps probeState
 	var fullTick, emptyTick, maxHeld int
+	justShrunk := false
+	curMax, prevHeld := bufMax, 0 // the limit in force (a producer script may lower it), holdings at the previous lock-free step
 	name := fmt.Sprintf("buffered/cap%d/buf%d/P:%s/C:%s/drain-%s", capacity, bufMax, scripts(producers), scripts(consumers), drain)
 	if setters {
 		name += "/configured-by-setters"
@@ -76,6 +78,7 @@ func bufScenarioX(capacity, bufMax int, producers [][]string, consumers [][]stri
 		Horizon:  int64(400 * time.Millisecond),
 		Body: func() {
 			fullTick, emptyTick, maxHeld = 0, 0, 0
+			curMax, prevHeld, justShrunk = bufMax, 0, false
 			q := fpgo.NewBufferedChannelQueue[int](capacity, bufMax, 100)
 			if setters {
 				q = fpgo.NewBufferedChannelQueue[int](capacity, bufMax+5, 1).SetBufferSizeMaximum(bufMax).SetLoadFromPoolDuration(3 * time.Millisecond).
@@ -93,6 +96,12 @@ func bufScenarioX(capacity, bufMax int, producers [][]string, consumers [][]stri
 						v := pi*10 + k + 1
 						f0 := fullTick
 						var err error
+						if op == "shrink1" { // lower the overflow limit to 1 while items are buffered
+							q.SetBufferSizeMaximum(1)
+							curMax, justShrunk = 1, true
+							vsched.Event("shrunk", q.GetBufferSizeMaximum())
+							continue
+						}
 						if op == "put" {
 							err = q.Put(v)
 						} else {
@@ -158,7 +167,7 @@ func bufScenarioX(capacity, bufMax int, producers [][]string, consumers [][]stri
 			ov, cl := ps.overflow(), ps.chanLen()
 			// "full" in the sense of the property: the overflow buffer is at its maximum (and, when the
 			// overflow is empty, the channel could not accept either)
-			if ov >= bufMax && (ov > 0 || cl >= capacity) {
+			if ov >= curMax && (ov > 0 || cl >= capacity) {
 				fullTick++
 			}
 			if cl == 0 {
@@ -168,9 +177,14 @@ func bufScenarioX(capacity, bufMax int, producers [][]string, consumers [][]stri
 				if ov+cl > maxHeld {
 					maxHeld = ov + cl
 				}
-				if ov+cl > capacity+bufMax {
-					return fmt.Sprintf("queue holds %d items (channel %d + overflow %d), more than channelCapacity %d + bufferSizeMaximum %d", ov+cl, cl, ov, capacity, bufMax)
+				// (after the limit was lowered the queue may still hold what it held, but it must not grow)
+				if justShrunk {
+					prevHeld, justShrunk = ov+cl, false
 				}
+				if ov+cl > capacity+curMax && (curMax == bufMax || ov+cl > prevHeld) {
+					return fmt.Sprintf("queue holds %d items (channel %d + overflow %d), more than channelCapacity %d + bufferSizeMaximum %d (held %d one step earlier)", ov+cl, cl, ov, capacity, curMax, prevHeld)
+				}
+				prevHeld = ov + cl
 			}
 			return ""
 		},
@@ -389,6 +403,9 @@ func scenarios(tier string) []*vsched.Scenario {
 			bufScenarioD(1, 1, P1, [][]string{{"poll"}}, "take", 1, false), bufScenarioD(1, 2, P1, [][]string{{"taket"}}, "take", 1, false), bufScenarioD(2, 1, P1, nil, "take", 1, false),
 			// unbuffered channel: the loader can only hand over to a consumer that is already waiting - a blocked Take is one
 			bufScenarioD(0, 2, P1, nil, "take", 1, false), bufScenarioD(0, 1, P1p, [][]string{{"poll"}}, "take", 1, false))
+		// the overflow limit lowered below what is already buffered: nothing more is accepted until it drains
+		out = append(out, bufScenario(1, 3, [][]string{{"offer", "offer", "offer", "offer", "shrink1", "offer", "offer"}}, nil, 1, false),
+			bufScenario(0, 2, [][]string{{"offer", "offer", "shrink1", "offer"}}, [][]string{{"take"}}, 1, false))
 		// configured through the setters instead of the constructor
 		out = append(out, bufScenarioX(1, 1, P1, cons[0], "poll", 1, false, true), bufScenarioX(1, 0, P1, cons[1], "poll", 1, false, true),
 			bufScenarioX(2, 2, P1, nil, "take", 1, false, true), bufScenarioX(0, 1, P1, cons[2], "poll", 1, false, true))
